@@ -513,16 +513,19 @@ func c07WriteFaults(c *Ctx) {
 						return
 					}
 					// the same fault through destinations that have more methods than Write
-					for dk := 1; dk <= 7; dk++ {
+					for dk := 1; dk <= 11; dk++ {
 						if !(kk%3 == dk%3 || kk >= L-2 || kk < 2) {
 							continue
 						}
 						// kinds 4..7: the same four method sets over a destination whose failures are NOT sticky (a
 						// fixed-capacity buffer refuses the piece that does not fit and accepts smaller ones after it):
 						// whatever was refused is missing from the output, so Write must still report it
-						lw2 := &limitWriter{k: kk, nonSticky: dk >= 4}
+						// kinds 8..11: a write-behind destination that reports its failure together with a FULL count
+						lw2 := &limitWriter{k: kk, nonSticky: dk >= 4 && dk < 8, fullCount: dk >= 8}
 						dst, dname := faultDest(dk, lw2)
-						if dk >= 4 {
+						if dk >= 8 {
+							dname += ", which takes the whole piece and reports the failure together with a full count (n == len(p), err != nil)"
+						} else if dk >= 4 {
 							dname += ", which refuses a call that does not fit and accepts later ones that do"
 						}
 						if err := w.write(dst); err == nil && (lw2.failed > 0 || len(lw2.buf) < L) {
@@ -645,8 +648,11 @@ func c07WriteFaultsLarge(c *Ctx) {
 						return
 					}
 					if kk >= L-100 || kk%7 == 0 {
-						lw2 := &limitWriter{k: kk}
+						lw2 := &limitWriter{k: kk, fullCount: kk%2 == 1}
 						dst, dname := faultDest(1+kk%3, lw2)
+						if lw2.fullCount {
+							dname += ", which reports the failure together with a full count"
+						}
 						if err := w.write(dst); err == nil && (lw2.failed > 0 || len(lw2.buf) < L) {
 							k.Input("writer_accepts_bytes", kk)
 							k.Input("destination", dname)
